@@ -93,6 +93,8 @@ def b_len(interp: Any, args: List[Any], kwargs: Dict[str, Any]) -> Any:
     from .interp import GenList, ObjVal
 
     (v,) = args
+    if getattr(v, "sym_len", None) is not None:
+        return v.sym_len
     if isinstance(v, (tuple, list, dict, set, str)):
         return len(v)
     if isinstance(v, Shape):
